@@ -4,6 +4,7 @@ import (
 	"context"
 	"fmt"
 	"os"
+	"reflect"
 	"strings"
 
 	kruisev1alpha1 "github.com/openkruise/kruise-api/apps/v1alpha1"
@@ -208,6 +209,11 @@ func (r *Run) user(a Action) {
 			r.skipped = true
 			return
 		}
+		if r.blueGreenSupersession(o, ver) {
+			r.W.Excluded[FindingBlueGreenSupersession]++
+			r.skipped = true
+			return
+		}
 		if r.releaseDuringCancel(o, ver) {
 			r.W.Excluded[FindingReleaseDuringCancel]++
 			r.skipped = true
@@ -244,6 +250,11 @@ func (r *Run) user(a Action) {
 		}
 		n := int32(1 + mod(a.N, 12))
 		if *(*replicasPtr(o)) == n {
+			return
+		}
+		if r.S.Style == "bluegreen" {
+			// model limit, not a finding: the environment's native Deployment controller has no
+			// proportional scaling across two active ReplicaSets, so blue-green runs are not scaled
 			return
 		}
 		if r.scaleBelowTrafficStep(int(n)) {
@@ -320,6 +331,11 @@ func (r *Run) user(a Action) {
 					steps[i].Pause.Duration = nil
 				}
 			case 1: // raise replicas of the step to the next step's value (keeps non-decreasing)
+				if i+1 < len(steps) && r.raiseReplicasOfUpgradedStep(ro, i) {
+					r.W.Excluded[FindingRaiseUpgradedStep]++
+					r.skipped = true
+					return
+				}
 				if i+1 < len(steps) {
 					v := *steps[i+1].Replicas
 					steps[i].Replicas = &v
@@ -351,6 +367,34 @@ func (r *Run) user(a Action) {
 			r.ulog("delete rollout")
 		}
 	}
+}
+
+// FindingRaiseUpgradedStep: the plan is edited so that the CURRENT step asks for more replicas
+// after that step has finished its own upgrade. The BatchRelease is only told about the plan in
+// StepUpgrade, so the step keeps its old pods; a later jump to a step with the same (new) replicas
+// takes doCanaryJump's "equal replicas" shortcut straight to StepTrafficRouting and that step's
+// traffic is applied to the old, smaller number of pods (100% of the traffic to 1 of 9 pods in the
+// replay).
+const FindingRaiseUpgradedStep = "c03-plan-edit-raises-replicas-of-the-already-upgraded-current-step"
+
+// raiseReplicasOfUpgradedStep: step i is the current step, past its upgrade, and the edit changes its replicas.
+func (r *Run) raiseReplicasOfUpgradedStep(ro *v1beta1.Rollout, i int) bool {
+	if !KnownOpen[FindingRaiseUpgradedStep] || os.Getenv("VERIF_REPLAY_STRICT") != "" {
+		return false
+	}
+	sub := ro.Status.GetSubStatus()
+	if sub == nil || ro.Status.Phase != v1beta1.RolloutPhaseProgressing || int(sub.CurrentStepIndex) != i+1 {
+		return false
+	}
+	steps := ro.Spec.Strategy.GetSteps()
+	if reflect.DeepEqual(steps[i].Replicas, steps[i+1].Replicas) {
+		return false
+	}
+	switch sub.CurrentStepState {
+	case v1beta1.CanaryStepStateInit, v1beta1.CanaryStepStateUpgrade:
+		return false
+	}
+	return true
 }
 
 // FindingRevertBeforeObserved: canary-style Deployment with traffic routing; the user reverts the
@@ -436,6 +480,29 @@ func (r *Run) rollbackBeforeFirstPod() bool {
 	return false
 }
 
+// FindingBlueGreenSupersession: a third template is published during a blue-green release. The
+// Rollout controller refuses it ("please rollback first") and keeps the BatchRelease, but the
+// BatchRelease controller aborts for one round only (see FindingSupersededResumed), then
+// un-pauses the Deployment the webhook had just paused and the native controller rolls the third
+// revision into the surge capacity: three versions run side by side.
+const FindingBlueGreenSupersession = "c10-bluegreen-supersession-rolled-out-by-the-batchrelease"
+
+// blueGreenSupersession: blue-green release progressing and the target template is neither the
+// revision being released nor the stable one.
+func (r *Run) blueGreenSupersession(target client.Object, ver string) bool {
+	if !KnownOpen[FindingBlueGreenSupersession] || os.Getenv("VERIF_REPLAY_STRICT") != "" || r.S.Style != "bluegreen" {
+		return false
+	}
+	ro := r.W.Rollout(r.S.Namespace, r.S.Name)
+	if ro == nil || ro.Status.Phase != v1beta1.RolloutPhaseProgressing || ro.Status.GetSubStatus() == nil {
+		return false
+	}
+	tpl := templateOf(target).DeepCopy()
+	tpl.Spec.Containers[0].Image = "app:" + ver
+	h := k8sTemplateHash(templateWithoutHash(tpl))
+	return h != canaryRevOf(ro) && h != ro.Status.GetSubStatus().StableRevision
+}
+
 // ActiveProps names the properties whose monitors the running check asserts (nil = all). The
 // exclusions of findings that can only surface through one property's monitor are applied only
 // where that monitor is asserted, so that the other checks keep exploring those inputs.
@@ -475,7 +542,7 @@ func (w *World) supersededBatchReleaseWouldResume(it QItem) bool {
 	return short != canaryRevOf(ro) && short != ro.Status.GetSubStatus().StableRevision && br.Status.UpdateRevision == upd
 }
 
-var KnownOpen = map[string]bool{FindingSupersededResumed: true, FindingRollbackBeforeFirstPod: true, FindingRevertBeforeObserved: true, FindingExitBeforeBatchRelease: true, FindingGatewayDisableCanarySvc: true, FindingPlanEditJumpToSelf: true, FindingReleaseDuringCancel: true, FindingScaleBelowTrafficStep: true}
+var KnownOpen = map[string]bool{FindingRaiseUpgradedStep: true, FindingBlueGreenSupersession: true, FindingBlueGreenRouteToMissingSvc: true, FindingSupersededResumed: true, FindingRollbackBeforeFirstPod: true, FindingRevertBeforeObserved: true, FindingExitBeforeBatchRelease: true, FindingGatewayDisableCanarySvc: true, FindingPlanEditJumpToSelf: true, FindingReleaseDuringCancel: true, FindingScaleBelowTrafficStep: true}
 
 // scaleBelowTrafficStep: partition style + provider + an integer step with traffic >= n.
 func (r *Run) scaleBelowTrafficStep(n int) bool {
